@@ -5,7 +5,7 @@ from sa.algebra import Evaluator, Poly, Undecided
 from sa.calls import bind, is_name
 from sa.cfg import CFG, conjuncts
 from sa import guards as G
-from sa.common import chain_root, expand_name, resolved_calls, returns_of, value_alternatives
+from sa.common import group_selector_verdict, chain_root, expand_name, resolved_calls, returns_of, value_alternatives
 from sa.defuse import DefUse, loc_name
 from sa.model import AnalysisError, AnchorMissing, const_value, src, walk_function
 from sa.struct import call_name, find, kwarg, norm
@@ -102,10 +102,15 @@ def d1_forwarding(ctx):
                 xarg = b.bound.get(data_p)
                 if isinstance(xarg, ast.Subscript) and loc_name(xarg.value) == data_p and isinstance(tgt.slice, ast.Tuple) and isinstance(xarg.slice, ast.Tuple):
                     okrows = norm(tgt.slice) == norm(xarg.slice)
-                    sel = loc_name(tgt.slice.elts[0])
-                    sd = du.strong_reaching(sel, st) if sel else []
-                    okrows = okrows and len(sd) == 1 and norm(sd[0].value) in (norm(ast.parse("collection == c", mode="eval").body),)
-            ctx.check(okrows, fi, st, st, "each group's result returns to the rows it was taken from", "group rows are gathered and scattered with different selectors", key=f"{name}:scatter")
+                    verdict, why = group_selector_verdict(du, tgt.slice.elts[0], st, "collection")
+                    if okrows and verdict == "unknown":
+                        raise AnalysisError(f"{q}: per-group row selector not understood: {why}")
+                    if okrows and verdict == "bad":
+                        ctx.violation(fi, st, st, f"the per-group rows are not the groups of equal `collection` values: {why}", key=f"{name}:groups", name_free=True)
+                    elif okrows:
+                        ctx.ok(fi, st, st, f"each iteration handles exactly one group of equal collection values ({why})", key=f"{name}:groups")
+            ctx.check(okrows, fi, st, st, "each group's result returns to the rows it was taken from", "group rows are gathered and scattered with different selectors", key=f"{name}:scatter",
+                      name_free=True)
 
 
 def _spatial_calls(fi, du):
